@@ -376,6 +376,13 @@ func (blockchain *Blockchain) BeginBlock(req abciTypes.RequestBeginBlock) abciTy
 				blockchain.stateDeliver.Accounts.AddBalance(item.Address, item.Coin, amount)
 			} else {
 				moveTo := blockchain.stateDeliver.Candidates.PubKey(item.GetMoveToCandidateID())
+				if !blockchain.stateDeliver.Candidates.Exists(moveTo) {
+					// The target candidate was removed while the move was in flight, so the coins cannot be
+					// delegated to it. They leave staking the regular way: as an unbond of the stake they came from,
+					// due after the unbond period.
+					blockchain.stateDeliver.FrozenFunds.AddFund(height+types.GetUnbondPeriod(), item.Address, item.CandidateKey, item.CandidateID, item.Coin, amount, 0)
+					continue
+				}
 				blockchain.eventsDB.AddEvent(&eventsdb.StakeMoveEvent{
 					Address:           item.Address,
 					Amount:            amount.String(),
